@@ -179,8 +179,10 @@ structure InvC (s : St) : Prop where
 
 /-- the thread-local `len` of the thread that is re-allocating (`b0`) / rebuilding (`wt`) -/
 structure InvD (s : St) : Prop where
-  pend_gt : ∀ x ∈ s.pend, s.flen < x
+  pend_gt : ∀ x ∈ s.pend, s.flen < x.1
   wtl_eq : ∀ x ∈ s.wtl, x = s.flen
+  /-- the thread-local `old_n == 0` is still true of `FFT_LEN` when the store happens (nobody else writes meanwhile) -/
+  pend_z : ∀ x ∈ s.pend, x.2 = true → s.flen = 0
 
 structure Inv (s : St) : Prop where
   a : InvA s
